@@ -94,24 +94,29 @@ class NnfVariant(Variant):
             ex.assume(is_atom(s))                      # negated atom
         self.w = Obj("pysmt.rewritings.NNFizer", {"env": env, "mgr": env.fields["_formula_manager"], "memoization": DictVal(),
                                                  "stack": []}, tag="nnfizer")
-        # children as the real _get_children lists them
-        fi = W.repo.method("pysmt.rewritings.NNFizer", "_get_children")
-        kids = ex.call(W.wrap_func(fi, fi.module, bound=self.w), [f], {})
+        # the pair (_get_children, callback) is what is under contract: an exception of either is an outcome, not a set-up failure
         from pyvc import builtins_impl as BI
-        self.kids = BI.iterate(W, ex, kids)
-        self.args = []
-        for i, c in enumerate(self.kids):
-            W.touch(ex, c)
-            a = z3.Const("nnf%d" % i, Node)
-            W.touch(ex, a)
-            ex.assume(S.type_of(a) == S.BoolT)
-            ex.assume(S.type_of(c) == S.BoolT)
-            ex.assume(S.val(a) == S.val(c))
-            ex.assume(isnnf(a))
-            ex.assume(z3.Implies(is_atom(c), a == c))     # atoms are returned unchanged (nnf:atom[*] below)
-            self.args.append(a)
-        fi = W.repo.func(self.qualname)
-        return W.wrap_func(fi, fi.module, bound=self.w), [f], {"args": list(self.args)}
+        from pyvc.symex import Builtin
+        v = self
+
+        def run(exx, a_, kw_):
+            fi = W.repo.method("pysmt.rewritings.NNFizer", "_get_children")
+            kids = exx.call(W.wrap_func(fi, fi.module, bound=v.w), [f], {})
+            v.kids = BI.iterate(W, exx, kids)
+            v.args = []
+            for i, c in enumerate(v.kids):
+                W.touch(exx, c)
+                a = z3.Const("nnf%d" % i, Node)
+                W.touch(exx, a)
+                exx.assume(S.type_of(a) == S.BoolT)
+                exx.assume(S.type_of(c) == S.BoolT)
+                exx.assume(S.val(a) == S.val(c))
+                exx.assume(isnnf(a))
+                exx.assume(z3.Implies(is_atom(c), a == c))     # atoms are returned unchanged (nnf:atom[*] below)
+                v.args.append(a)
+            fi2 = W.repo.func(v.qualname)
+            return exx.call(W.wrap_func(fi2, fi2.module, bound=v.w), [f], {"args": list(v.args)})
+        return Builtin("children+callback:" + self.qualname, run), [], {}
 
     def check(self, ex, outcome):
         kind, r = outcome
@@ -202,9 +207,11 @@ class AigVariant(Variant):
 
 
 def extras(prop, tier, seed):
+    from pyvc.report import run_bounded
+    if prop == "C20":
+        return [run_bounded("partitions", tier, seed)]
     if prop != "C10":
         return []
-    from pyvc.report import run_bounded
     return [run_bounded("rewriters", tier, seed, timeout=3000)]
 
 
@@ -214,7 +221,9 @@ def variants(world, tier="quick", only=None):
         for k in ks:
             out.append(NnfVariant(world, Kop, k))
     out.append(NnfVariant(world, S.NOT, 1))
-    for Jop, js in ((S.NOT, (1,)), (S.AND, (2, 3)), (S.OR, (2, 3)), (S.IMPLIES, (2,)), (S.IFF, (2,)), (S.ITE, (3,))):
+    # (a negation directly under a negation does not exist: the node invariant - FormulaManager.Not removes it - makes that
+    #  branch of _get_children unreachable; the per-variant vacuity guard reports such a variant instead of passing it)
+    for Jop, js in ((S.AND, (2, 3)), (S.OR, (2, 3)), (S.IMPLIES, (2,)), (S.IFF, (2,)), (S.ITE, (3,))):
         for j in js:
             out.append(NnfVariant(world, S.NOT, 1, Jop, j))
     dn = world.repo.dispatch("pysmt.rewritings.NNFizer")
@@ -295,30 +304,39 @@ class PartitionVariant(Variant):
             exx.ghost["yielded_ok"] = fold([exx.ghost["yielded_ok"], v.holds(val)])
         self.on_yield = on_yield
 
+        # the roles of the locals are read from the loop: the work list is what the loop condition tests, `seen` is the
+        # set membership is asked of, the current node is what the body assigns
+        from pyvc import loops as L
+        ln = L.loop_node(W.repo, self.qualname, 0)
+        WL = (L.test_names(ln) or ["to_process"])[0]
+        SEEN = (L.membership_names(ln) or ["seen"])[0]
+        CUR = [n for n in L.stored_names(ln) if n not in (WL, SEEN)]
+
         def pending(exx, fr):
-            tp = fr.locs["to_process"]
+            tp = fr.locs[WL]
             if isinstance(tp, PrefList):
                 return fold([exx.ghost["rest_ok"]] + [v.holds(x) for x in tp.items])
             return fold([v.holds(x) for x in tp])
 
         def seen_z3(exx, fr):
-            return BI.set_to_z3(W, exx, fr.locs["seen"], Node)
+            return BI.set_to_z3(W, exx, fr.locs[SEEN], Node)
 
         def havoc(exx, fr):
             gg = exx.ghost
             gg["acted"] = exx.fresh("acted_so_far", NodeSet)
             gg["yielded_ok"] = exx.fresh("yielded_so_far", B)
             gg["rest_ok"] = exx.fresh("rest_of_the_work_list", B)
-            fr.locs["seen"] = SetVal(zextra=[exx.fresh("seen_so_far", NodeSet)])
+            fr.locs[SEEN] = SetVal(zextra=[exx.fresh("seen_so_far", NodeSet)])
             if exx.decide(exx.fresh("work_left", B)):
                 top = exx.fresh("top_entry", Node)
                 W.touch(exx, top)
                 n = exx.fresh("entries_below", S.I)
                 exx.assume(n >= 0)
-                fr.locs["to_process"] = PrefList(n, [top])
+                fr.locs[WL] = PrefList(n, [top])
             else:
-                fr.locs["to_process"] = []
-            fr.locs.pop("cur", None)
+                fr.locs[WL] = []
+            for nm in CUR:
+                fr.locs.pop(nm, None)
 
         def inv(exx, fr):
             gg = exx.ghost
@@ -473,6 +491,193 @@ def variants(world, tier="quick", only=None):
             out.append(TimesDistVariant(world, S.PLUS, shape, real))
         for shape in ((0, 0), (2, 0), (0, 2), (3, 2)):
             out.append(TimesDistVariant(world, S.MINUS, shape, real))
+    if only:
+        out = [v for v in out if any(o in v.name for o in only)]
+    return out
+
+
+# ---------------------------------------------------------------------------
+# PrenexNormalizer: the prefix list (innermost first) of walk_quantifier, walk_not and normalize
+# ---------------------------------------------------------------------------
+PRENEX = "pysmt.rewritings.PrenexNormalizer"
+
+
+class PrenexPrefixVariant(Variant):
+    """The walker returns (L, m): the formula is equivalent to  fold(L, m) = Qn Vn. ... Q1 V1. m  with L = [(Q1,V1),...,(Qn,Vn)]
+    innermost first (class comment; normalize() folds in exactly this order - checked).  Structural obligations that follow
+    from the definition of fold, for an inner prefix of 0-2 blocks:
+      walk_quantifier   Q V. body  with body = fold(L, m)  is  fold(L + [(Q, V')], m), V' = V minus the variables re-bound in L
+                        (vacuous when empty: L itself) - the new block goes OUTSIDE, i.e. LAST
+      walk_not          not fold(L, m) = fold(L with every quantifier dualised, not m), same order, same variables
+      normalize         returns Qn(Vn, ... Q1(V1, m))"""
+    prop_ids = ("C10",)
+    bounded = "arity"
+
+    def __init__(self, world, method, inner, Kop=None, nvars=1):
+        self.world, self.method, self.inner, self.Kop, self.nvars = world, method, tuple(inner), Kop, nvars
+        self.qualname = PRENEX + "." + method
+        self.name = "prenex:%s[%s%s]" % (method, "".join("E" if q else "A" for q in inner) or "-",
+                                         "" if Kop is None else "/%s %d" % (S.OPNAMES[Kop], nvars))
+        self.max_arity = 3
+
+    def qname(self, q):
+        """'Exists' / 'ForAll' of a bound constructor value"""
+        return getattr(getattr(q, "fi", None), "name", None)
+
+    def setup(self, ex):
+        from pyvc.symex import SetVal
+        W = self.world
+        env = core.make_env(ex, W)
+        mgr = env.fields["_formula_manager"]
+        self.mgr = mgr
+        self.w = Obj(PRENEX, {"env": env, "mgr": mgr, "memoization": DictVal(), "stack": []}, tag="prenex")
+        self.m = z3.Const("matrix", Node)
+        W.touch(ex, self.m)
+        ex.assume(S.type_of(self.m) == S.BoolT)
+        self.ivars = [z3.Const("inner_var%d" % i, Node) for i in range(len(self.inner))]
+        for x in self.ivars:
+            W.touch(ex, x)
+            ex.assume(S.op(x) == S.SYMBOL)
+        if len(self.ivars) > 1:
+            ex.assume(z3.Distinct(self.ivars))
+        self.L = [(W.getattr(ex, mgr, "Exists" if isex else "ForAll"), SetVal([x])) for isex, x in zip(self.inner, self.ivars)]
+        fi = W.repo.method(PRENEX, self.method)
+        fn = W.wrap_func(fi, fi.module, bound=self.w)
+        if self.method == "walk_quantifier":
+            f = z3.Const("formula", Node)
+            W.touch(ex, f)
+            ex.assume(S.op(f) == self.Kop)
+            W.learn(ex, f, op=self.Kop, k=1)
+            ex.assume(S.nqv(f) == self.nvars)
+            self.f = f
+            self.qv = [S.qv(f, S.K(i)) for i in range(self.nvars)]
+            for x in self.qv:
+                W.touch(ex, x)
+            if self.nvars > 1:
+                ex.assume(z3.Distinct(self.qv))
+            return fn, [f], {"args": [(list(self.L), self.m)]}
+        if self.method == "walk_not":
+            f = z3.Const("formula", Node)
+            W.touch(ex, f)
+            ex.assume(S.op(f) == S.NOT)
+            W.learn(ex, f, op=S.NOT, k=1)
+            self.f = f
+            return fn, [f], {"args": [(list(self.L), self.m)]}
+        raise KeyError(self.method)
+
+    def set_items(self, ex, s):
+        return list(BI.iterate(self.world, ex, s))
+
+    def check(self, ex, outcome):
+        from pyvc import builtins_impl as BI_
+        kind, r = outcome
+        if kind == "raise":
+            return [("no-exception", z3.BoolVal(False))]
+        if not (isinstance(r, tuple) and len(r) == 2 and isinstance(r[0], list)):
+            return [("returns-prefix-and-matrix", z3.BoolVal(False))]
+        W = self.world
+        L, m = r
+        goals = []
+        if self.method == "walk_not":
+            if is_node(m):
+                W.touch(ex, m)
+                goals.append(("matrix-is-the-negation-of-the-matrix", S.val(m) == S.VBool(z3.Not(S.vb(S.val(self.m))))))
+            else:
+                goals.append(("matrix-is-the-negation-of-the-matrix", z3.BoolVal(False)))
+            ok = len(L) == len(self.L)
+            goals.append(("same-number-of-blocks", z3.BoolVal(ok)))
+            for i, ((q, vs), (q0, vs0), isex) in enumerate(zip(L, self.L, self.inner)):
+                goals.append(("block-%d-dualised" % i, z3.BoolVal(self.qname(q) == ("ForAll" if isex else "Exists"))))
+                a, b = BI_.iterate(W, ex, vs), BI_.iterate(W, ex, vs0)
+                goals.append(("block-%d-same-variables" % i, z3.And([x == y for x, y in zip(a, b)]) if len(a) == len(b) else z3.BoolVal(False)))
+            return goals
+        # walk_quantifier
+        goals.append(("matrix-unchanged", (m == self.m) if is_node(m) else z3.BoolVal(False)))
+        # V' = the formula's variables that no inner block binds again
+        rebinds = lambda x: z3.Or([x == y for y in self.ivars]) if self.ivars else z3.BoolVal(False)
+        n_inner = len(self.L)
+        same_prefix = len(L) >= n_inner and all(self.qname(L[i][0]) == self.qname(self.L[i][0]) for i in range(n_inner))
+        goals.append(("inner-blocks-kept-in-place-innermost-first", z3.BoolVal(bool(same_prefix))))
+        if same_prefix:
+            for i in range(n_inner):
+                a, b = BI_.iterate(W, ex, L[i][1]), BI_.iterate(W, ex, self.L[i][1])
+                goals.append(("inner-block-%d-same-variables" % i, z3.And([x == y for x, y in zip(a, b)]) if len(a) == len(b) else z3.BoolVal(False)))
+        innerset = z3.EmptySet(Node)
+        for y in self.ivars:
+            innerset = z3.SetAdd(innerset, y)
+        all_rebound = z3.IsSubset(S.qvset(self.f), innerset)
+        if len(L) == n_inner:
+            goals.append(("block-dropped-only-when-vacuous", all_rebound))
+        elif len(L) == n_inner + 1:
+            q, vs = L[-1]
+            goals.append(("new-block-is-outermost-and-of-the-formula's-kind", z3.BoolVal(self.qname(q) == ("Exists" if self.Kop == S.EXISTS else "ForAll"))))
+            got = BI_.set_to_z3(W, ex, vs, Node)
+            goals.append(("binds-exactly-the-variables-not-bound-again-inside", got == z3.SetDifference(S.qvset(self.f), innerset)))
+            goals.append(("block-not-vacuous", z3.Not(all_rebound)))
+        else:
+            goals.append(("at-most-one-new-block", z3.BoolVal(False)))
+        return goals
+
+
+class PrenexNormalizeVariant(Variant):
+    """normalize(): folds the prefix returned by the walk innermost first - Qn(Vn, ... Q1(V1, m))"""
+    prop_ids = ("C10",)
+    qualname = PRENEX + ".normalize"
+
+    def __init__(self, world, inner):
+        self.world, self.inner = world, tuple(inner)
+        self.name = "prenex:normalize[%s]" % ("".join("E" if q else "A" for q in inner) or "-")
+
+    def setup(self, ex):
+        W = self.world
+        env = core.make_env(ex, W)
+        self.m = z3.Const("matrix", Node)
+        W.touch(ex, self.m)
+        self.calls = []
+        v = self
+
+        def mkq(nm):
+            def q(exx, a, kw):
+                r = exx.fresh("quantified", Node)
+                W.touch(exx, r)
+                v.calls.append((nm, a[0], a[1], r))
+                return r
+            return Builtin(nm, q)
+        self.vars = ["V%d" % i for i in range(len(self.inner))]
+        L = [(mkq("Exists" if isex else "ForAll"), vs) for isex, vs in zip(self.inner, self.vars)]
+        self.w = Obj(PRENEX, {"env": env, "mgr": env.fields["_formula_manager"], "memoization": DictVal(), "stack": []}, tag="prenex")
+        self.w.fields["walk"] = Builtin("walk", lambda exx, a, kw: (list(L), v.m))
+        fi = W.repo.method(PRENEX, "normalize")
+        return W.wrap_func(fi, fi.module, bound=self.w), [z3.Const("formula", Node)], {}
+
+    def check(self, ex, outcome):
+        kind, r = outcome
+        if kind == "raise":
+            return [("no-exception", z3.BoolVal(False))]
+        goals = [("one-quantifier-per-block", z3.BoolVal(len(self.calls) == len(self.inner)))]
+        cur = self.m
+        for i, (c, isex, vs) in enumerate(zip(self.calls, self.inner, self.vars)):
+            nm, gv, body, res = c
+            goals.append(("block-%d-applied-in-order-innermost-first" % i, z3.BoolVal(nm == ("Exists" if isex else "ForAll") and gv == vs)))
+            goals.append(("block-%d-over-the-formula-built-so-far" % i, (body == cur) if is_node(body) else z3.BoolVal(False)))
+            cur = res
+        goals.append(("returns-the-outermost", (r == cur) if is_node(r) else z3.BoolVal(False)))
+        return goals
+
+
+from pyvc.symex import Builtin
+from pyvc import builtins_impl as BI
+_base_variants10c = variants
+
+
+def variants(world, tier="quick", only=None):
+    out = _base_variants10c(world, tier, None)
+    for inner in ((), (True,), (False,), (True, False), (False, True)):
+        for Kop in (S.FORALL, S.EXISTS):
+            for nv in (1, 2):
+                out.append(PrenexPrefixVariant(world, "walk_quantifier", inner, Kop, nv))
+        out.append(PrenexPrefixVariant(world, "walk_not", inner))
+        out.append(PrenexNormalizeVariant(world, inner))
     if only:
         out = [v for v in out if any(o in v.name for o in only)]
     return out
